@@ -361,7 +361,7 @@ func (r *Resolver) AutoTA() {
 					// current anchor: dropping it would leave a published,
 					// self-signed revocation unseen for as long as the
 					// collision lasts.
-					old := kskCurrent[keyTag-DNSKEYFlagRevoke]
+					old := kskCurrent[unrevokedKeyTag(dnskey)]
 					tracked := kskCurrent[keyTag]
 					switch {
 					case dnskey.Flags&DNSKEYFlagRevoke != 0 && old != nil && sameKeyExceptRevoke(old.DNSKey, dnskey):
@@ -424,7 +424,7 @@ func (r *Resolver) AutoTA() {
 		}
 
 		if ta.DNSKey.Flags&DNSKEYFlagRevoke != 0 {
-			oldTag := tag - DNSKEYFlagRevoke
+			oldTag := unrevokedKeyTag(ta.DNSKey)
 			oldTA := kskCurrent[oldTag]
 			// RFC 5011 §4 state table: both Valid + RevBit and
 			// Missing + RevBit transition to revoked. Since Missing
@@ -661,6 +661,17 @@ func autoTARefreshFailureCounter(err error, fallback *metric.Counter) *metric.Co
 // of the real trust anchor. Comparing the actual key material
 // (algorithm, protocol, public key, and flags modulo REVOKE) closes
 // that gap.
+// unrevokedKeyTag is the key tag k carried before its REVOKE bit was set.
+// That is not always tag-128: the tag is a folded 16-bit checksum over the
+// RDATA, and for one key in a few hundred setting the bit carries into the
+// fold. Looking the anchor up under tag-128 misses it for those keys, and a
+// self-signed revocation that cannot find its anchor is ignored.
+func unrevokedKeyTag(k *dns.DNSKEY) uint16 {
+	plain := *k
+	plain.Flags &^= DNSKEYFlagRevoke
+	return dnssec.KeyTag(&plain)
+}
+
 func sameKeyExceptRevoke(currentKey, revokedKey *dns.DNSKEY) bool {
 	if currentKey == nil || revokedKey == nil {
 		return false
@@ -724,7 +735,7 @@ func stageRevocationSelfSignatures(
 			existing.DNSKey.Flags == ta.DNSKey.Flags {
 			continue
 		}
-		oldTA := kskCurrent[tag-DNSKEYFlagRevoke]
+		oldTA := kskCurrent[unrevokedKeyTag(ta.DNSKey)]
 		if oldTA == nil || (oldTA.State != StateValid && oldTA.State != StateMissing) {
 			continue
 		}
@@ -791,7 +802,7 @@ func verifyFetchedKeysWithWork(
 		if dnskey.Flags&DNSKEYFlagRevoke == 0 {
 			continue
 		}
-		for _, candidate := range currentKeys[dnssec.KeyTag(dnskey)-DNSKEYFlagRevoke] {
+		for _, candidate := range currentKeys[unrevokedKeyTag(dnskey)] {
 			if sameKeyExceptRevoke(candidate, dnskey) {
 				tag := dnssec.KeyTag(dnskey)
 				revokedBootstrap[tag] = append(revokedBootstrap[tag], dnskey)
